@@ -13,7 +13,9 @@
 //   - go f(a,b) -> named, parked-at-start child with a recover() wrapper;
 //   - verifrt.Locked()/Unlocking() around mutex sections;
 //   - verifrt.Tick() at the head of every loop body;
-//   - knobs: lruFileHandlerCapacity, bufio.NewReader/NewWriter sizes.
+//   - knobs: lruFileHandlerCapacity, bufio.NewReader/NewWriter sizes;
+//   - verifrt.MapAccess(m, name, write, site) before each statement that indexes, ranges over or deletes from a
+//     package-level map (shared-map discipline check, see rt.MapAccess).
 //
 // Output: <out-dir>/<rel path> for each changed file and <out-dir>/overlay.json
 // ({"Replace": {abs original: abs instrumented}}).  Exit 2 on any trouble.
@@ -163,6 +165,7 @@ func rewriteGo(g *ast.GoStmt, rel string) ast.Stmt {
 	blk.List = append(blk.List, &ast.AssignStmt{Lhs: []ast.Expr{tok}, Tok: token.DEFINE, Rhs: []ast.Expr{call("BeforeGo", strlit(st))}})
 	body := &ast.BlockStmt{List: []ast.Stmt{
 		recoverDefer(),
+		&ast.DeferStmt{Call: call("GoEnd")},
 		&ast.ExprStmt{X: call("GoStart", tok)},
 		&ast.ExprStmt{X: &ast.CallExpr{Fun: fn, Args: newArgs}},
 	}}
@@ -174,12 +177,137 @@ func rewriteGo(g *ast.GoStmt, rel string) ast.Stmt {
 	return blk
 }
 
+// ---- package-level maps (shared between goroutines unless proven otherwise)
+
+// pkgMaps[dir][name] = true for package-level variables which are syntactically maps.
+var pkgMaps = map[string]map[string]bool{}
+
+// exported package-level maps by "pkgbase.Name", for accesses from other packages
+var exportedMaps = map[string]bool{}
+var mapSites int
+
+func isMapTypeOrValue(t ast.Expr, v ast.Expr) bool {
+	if _, ok := t.(*ast.MapType); ok {
+		return true
+	}
+	switch x := v.(type) {
+	case *ast.CompositeLit:
+		_, ok := x.Type.(*ast.MapType)
+		return ok
+	case *ast.CallExpr:
+		if id, ok := x.Fun.(*ast.Ident); ok && id.Name == "make" && len(x.Args) >= 1 {
+			_, ok := x.Args[0].(*ast.MapType)
+			return ok
+		}
+	}
+	return false
+}
+
+func collectPkgMaps(f *ast.File, dir string) {
+	for _, d := range f.Decls {
+		gd, ok := d.(*ast.GenDecl)
+		if !ok || gd.Tok != token.VAR {
+			continue
+		}
+		for _, sp := range gd.Specs {
+			vs := sp.(*ast.ValueSpec)
+			for i, nm := range vs.Names {
+				var val ast.Expr
+				if i < len(vs.Values) {
+					val = vs.Values[i]
+				}
+				if isMapTypeOrValue(vs.Type, val) {
+					if pkgMaps[dir] == nil {
+						pkgMaps[dir] = map[string]bool{}
+					}
+					pkgMaps[dir][nm.Name] = true
+					if ast.IsExported(nm.Name) {
+						exportedMaps[filepath.Base(dir)+"."+nm.Name] = true
+					}
+				}
+			}
+		}
+	}
+}
+
+type mapAcc struct {
+	expr  ast.Expr
+	name  string
+	write bool
+}
+
+// sharedMapExpr tells whether e denotes a package-level map of this package (by name) or an exported one of another.
+func sharedMapExpr(e ast.Expr, dir string) (string, bool) {
+	switch x := e.(type) {
+	case *ast.Ident:
+		if pkgMaps[dir][x.Name] {
+			return filepath.Base(dir) + "." + x.Name, true
+		}
+	case *ast.SelectorExpr:
+		if id, ok := x.X.(*ast.Ident); ok && exportedMaps[id.Name+"."+x.Sel.Name] {
+			return id.Name + "." + x.Sel.Name, true
+		}
+	}
+	return "", false
+}
+
+// stmtMapAccesses lists the accesses to shared maps made by the statement's own expressions (not by nested blocks).
+func stmtMapAccesses(s ast.Stmt, dir string) []mapAcc {
+	var out []mapAcc
+	writes := map[ast.Expr]bool{}
+	switch v := s.(type) {
+	case *ast.AssignStmt:
+		for _, l := range v.Lhs {
+			if ie, ok := l.(*ast.IndexExpr); ok {
+				writes[ie] = true
+			}
+		}
+	case *ast.IncDecStmt:
+		if ie, ok := v.X.(*ast.IndexExpr); ok {
+			writes[ie] = true
+		}
+	case *ast.RangeStmt:
+		if nm, ok := sharedMapExpr(v.X, dir); ok {
+			out = append(out, mapAcc{v.X, nm, false})
+		}
+	case *ast.BlockStmt, *ast.LabeledStmt, *ast.CaseClause, *ast.CommClause, *ast.DeferStmt, *ast.GoStmt, *ast.SelectStmt:
+		return nil
+	}
+	ast.Inspect(s, func(x ast.Node) bool {
+		switch v := x.(type) {
+		case *ast.FuncLit, *ast.BlockStmt:
+			return false
+		case *ast.IndexExpr:
+			if nm, ok := sharedMapExpr(v.X, dir); ok {
+				out = append(out, mapAcc{v.X, nm, writes[v]})
+			}
+		case *ast.CallExpr:
+			if id, ok := v.Fun.(*ast.Ident); ok && id.Name == "delete" && len(v.Args) == 2 {
+				if nm, ok := sharedMapExpr(v.Args[0], dir); ok {
+					out = append(out, mapAcc{v.Args[0], nm, true})
+				}
+			}
+		}
+		return true
+	})
+	return out
+}
+
 func processList(list []ast.Stmt, rel string) []ast.Stmt {
 	out := make([]ast.Stmt, 0, len(list))
+	dir := filepath.Dir(rel)
 	for _, s := range list {
 		inner := s
 		if ls, ok := s.(*ast.LabeledStmt); ok {
 			inner = ls.Stmt
+		}
+		for _, ma := range stmtMapAccesses(inner, dir) {
+			wr := "false"
+			if ma.write {
+				wr = "true"
+			}
+			mapSites++
+			out = append(out, &ast.ExprStmt{X: call("MapAccess", ma.expr, strlit(ma.name), ast.NewIdent(wr), strlit(site(rel, inner.Pos())))})
 		}
 		_, _, hasLock := exprHasSync(inner)
 		if g, ok := inner.(*ast.GoStmt); ok && !generated[g] {
@@ -332,6 +460,20 @@ func main() {
 			continue
 		}
 		src, _ := os.ReadFile(p)
+		f0, err := parser.ParseFile(token.NewFileSet(), p, src, 0)
+		if err != nil {
+			fmt.Fprintln(os.Stderr, "instr: parse error", p, err)
+			os.Exit(2)
+		}
+		collectPkgMaps(f0, filepath.Dir(rel))
+	}
+	for _, p := range files {
+		rel, _ := filepath.Rel(root, p)
+		info, _ := os.Stat(p)
+		if strings.HasPrefix(rel, "pkg/parsing/") || strings.HasPrefix(rel, "pkg/terminals/") || info.Size() > 2<<20 || info.Size() == 0 {
+			continue
+		}
+		src, _ := os.ReadFile(p)
 		f, err := parser.ParseFile(fset, p, src, parser.ParseComments)
 		if err != nil {
 			fmt.Fprintln(os.Stderr, "instr: parse error", p, err)
@@ -375,5 +517,9 @@ func main() {
 		fmt.Fprintln(os.Stderr, "instr:", err)
 		os.Exit(2)
 	}
-	fmt.Printf("instr: files=%d sync_sites=%d knobs=%v\n", len(replace), total, knobsApplied)
+	nmaps := 0
+	for _, m := range pkgMaps {
+		nmaps += len(m)
+	}
+	fmt.Printf("instr: files=%d sync_sites=%d knobs=%v pkg_maps=%d map_access_sites=%d\n", len(replace), total, knobsApplied, nmaps, mapSites)
 }
